@@ -193,66 +193,6 @@ theorem wf_indexed (name : String) (hname : WF (.atom name) = true) (idx : List 
     exact wf_natAtom n
   simp only [indexed, wf_list, wfList_cons, wf_fixed.2.2.1, hname, hidx, has, Bool.and_self]
 
-theorem mem_pairsOf_zip {α β} : ∀ (l1 : List α) (l2 : List β) (e : (α × α) × (β × β)),
-    e ∈ (pairsOf l1).zip (pairsOf l2) → e.2.1 ∈ l2 ∧ e.2.2 ∈ l2 := by
-  intro l1 l2 e he
-  have := (List.of_mem_zip he).2
-  exact mem_pairsOf l2 e.2 this
-
-/-- what is printed for an entry of the dictionary of assignments was printed for some assignment -/
-theorem mem_dictInsert {β} (e : (Term × Term) × (β × β)) : ∀ (acc : List ((Term × Term) × (β × β))) (z : (Term × Term) × (β × β)),
-    z ∈ dictInsert e acc →
-      (∃ x ∈ e :: acc, x.2.1 = z.2.1) ∧ (∃ y ∈ e :: acc, y.2.2 = z.2.2)
-  | [], z, h => by
-    simp only [dictInsert, List.mem_singleton] at h
-    subst h
-    exact ⟨⟨_, by simp, rfl⟩, ⟨_, by simp, rfl⟩⟩
-  | x :: xs, z, h => by
-    simp only [dictInsert] at h
-    split at h
-    · rcases List.mem_cons.1 h with rfl | h
-      · exact ⟨⟨x, by simp, rfl⟩, ⟨e, by simp, rfl⟩⟩
-      · exact ⟨⟨z, by simp [h], rfl⟩, ⟨z, by simp [h], rfl⟩⟩
-    · rcases List.mem_cons.1 h with rfl | h
-      · exact ⟨⟨_, by simp, rfl⟩, ⟨_, by simp, rfl⟩⟩
-      · obtain ⟨⟨a, ha, ha1⟩, ⟨b, hb, hb2⟩⟩ := mem_dictInsert e xs z h
-        refine ⟨⟨a, ?_, ha1⟩, ⟨b, ?_, hb2⟩⟩
-        · rcases List.mem_cons.1 ha with rfl | ha
-          · simp
-          · simp [ha]
-        · rcases List.mem_cons.1 hb with rfl | hb
-          · simp
-          · simp [hb]
-
-theorem mem_dictPairs {β} (l : List ((Term × Term) × (β × β))) (z : (Term × Term) × (β × β)) (h : z ∈ dictPairs l) :
-    (∃ x ∈ l, x.2.1 = z.2.1) ∧ (∃ y ∈ l, y.2.2 = z.2.2) := by
-  unfold dictPairs at h
-  have : ∀ (l acc : List ((Term × Term) × (β × β))), z ∈ List.foldl (fun acc e => dictInsert e acc) acc l →
-      (∃ x ∈ acc ++ l, x.2.1 = z.2.1) ∧ (∃ y ∈ acc ++ l, y.2.2 = z.2.2) := by
-    intro l
-    induction l with
-    | nil =>
-      intro acc h
-      simp only [List.foldl_nil] at h
-      exact ⟨⟨z, by simpa using h, rfl⟩, ⟨z, by simpa using h, rfl⟩⟩
-    | cons e l ih =>
-      intro acc h
-      simp only [List.foldl_cons] at h
-      obtain ⟨⟨x, hx, hx1⟩, ⟨y, hy, hy2⟩⟩ := ih _ h
-      have conv : ∀ w, w ∈ dictInsert e acc ++ l →
-          (∃ x ∈ acc ++ e :: l, x.2.1 = w.2.1) ∧ (∃ y ∈ acc ++ e :: l, y.2.2 = w.2.2) := by
-        intro w hw
-        rcases List.mem_append.1 hw with hw | hw
-        · obtain ⟨⟨a, ha, ha1⟩, ⟨b, hb, hb2⟩⟩ := mem_dictInsert e acc w hw
-          refine ⟨⟨a, ?_, ha1⟩, ⟨b, ?_, hb2⟩⟩
-          · rcases List.mem_cons.1 ha with rfl | ha <;> simp [*]
-          · rcases List.mem_cons.1 hb with rfl | hb <;> simp [*]
-        · exact ⟨⟨w, by simp [hw], rfl⟩, ⟨w, by simp [hw], rfl⟩⟩
-      obtain ⟨⟨a, ha, ha1⟩, _⟩ := conv x hx
-      obtain ⟨_, ⟨b, hb, hb2⟩⟩ := conv y hy
-      exact ⟨⟨a, ha, ha1.trans hx1⟩, ⟨b, hb, hb2.trans hy2⟩⟩
-  simpa using this l [] h
-
 section
 variable (sp : Spell) (hsp : SpellStd sp) (env : SEnv) (scope0 : List Sym)
 include hsp
